@@ -61,7 +61,7 @@ impl Property for C07 {
         "documents and three node-set-valued expression ASTs A, B, C (all axes incl. reverse ones, predicates, unions, filter expressions) from proptest gene vectors. Oracle = \
          invariants and algebra only, no reference evaluator: every result lists each node at most once and in document order (positions come from a pre-order walk of the DOM, \
          not from the library's order keys); A|B = B|A = sorted duplicate-free merge of the results of A and B; A|A = A; (A|B)|C = A|(B|C); max(|A|,|B|) <= count(A|B) <= |A|+|B|; \
-         (A)[k] is the k-th member of A, (A)[last()] the last, (A)[position()<=k] the first k. Non-trivial = A and B overlap partially or one of them is produced through a \
+         (A)[k] is the k-th member of A, (A)[last()] the last, (A)[position()<=k] the first k; and A evaluated as a sub-expression inside a predicate on the root node (same context as the top level) has the same cardinality, a member at position |A| and none at |A|+1. Non-trivial = A and B overlap partially or one of them is produced through a \
          reverse axis / in non-document order; distinct by (document, A, B, C)."
             .into()
     }
@@ -225,6 +225,24 @@ impl Property for C07 {
         let firstk: Pos = ra.iter().take(k).cloned().collect();
         if *get(10) != firstk {
             fail!("c07.positional-filter-range".to_string(), format!("{} = {:?} but A = {:?}", exprs[10], get(10), ra));
+        }
+        // "every node-set produced by any expression": the same A as a sub-expression. Inside a predicate on the
+        // root node the context (node = root, position 1 of 1) is that of the top level, so A must be the same set
+        // there: same cardinality, a last member at |A| and none beyond.
+        let na = ra.len();
+        let probes: Vec<(String, f64)> = vec![
+            (format!("count((/)[count({}) = {}])", a, na), 1.0),
+            (format!("count((/)[count(({})|({})) = {}])", a, b, uab.len()), 1.0),
+            (format!("count((/)[({})[{}]])", a, na.max(1)), if na > 0 { 1.0 } else { 0.0 }),
+            (format!("count((/)[({})[{}]])", a, na + 1), 0.0),
+        ];
+        for (q, want) in probes {
+            if let Some(got) = number(&doc, &q, &ns) {
+                if got != want {
+                    fail!("c07.sub-expression-node-set-differs".to_string(), format!("{} = {} (expected {}): A has {} members at top level: {:?}", q, got, want, na, ra));
+                }
+                obs.label("sub-expression-probe");
+            }
         }
         Verdict::Pass
     }
